@@ -363,6 +363,10 @@ func c08Classify(d []byte, ctx c08Ctx) string {
 		default:
 			if u := c08ContentUndec(r, ctx); u != "" {
 				set("undec:" + u)
+			} else if r.ct == 21 && len(recs) == 1 && r.body[0] != 2 && r.body[1] != 0 {
+				// a lone unprotected alert that is neither fatal nor close_notify: inert while the handshake is
+				// running, handed to Read (connection continues) once established - conn.go classifyReadLoopError
+				return "warn"
 			} else {
 				return "clear"
 			}
@@ -372,7 +376,7 @@ func c08Classify(d []byte, ctx c08Ctx) string {
 	return first
 }
 
-func c08IsDrop(class string) bool { return class != "clear" && class != "auth" }
+func c08IsDrop(class string) bool { return class != "clear" && class != "auth" && class != "warn" }
 
 // ---------------------------------------------------------------- session with monitors
 
@@ -448,6 +452,10 @@ type c08Res struct {
 	Cache0   int      `json:"cache0"` // handshake cache entries of the target before / after the injections
 	Cache1   int      `json:"cache1"`
 	Stalled  bool     `json:"stalled"` // neither completed nor failed within the virtual time limit
+	FirstC   string   `json:"first_c"` // what the FIRST Read of the client / server returned: payload | unknown | err:<text> | ""
+	FirstS   string   `json:"first_s"`
+	Inert    bool     `json:"inert"` // every injected datagram had to be without effect at the moment it arrived
+	                               // (a drop class, or a warning alert while the target's handshake was running)
 	Note     string   `json:"note,omitempty"`
 	Hex      string   `json:"hex,omitempty"` // trace lines
 	HeapMB   float64  `json:"heap_mb,omitempty"`
@@ -579,13 +587,16 @@ func (s *c08Sess) inject(target string, data []byte, class, gen string) c08Effec
 	if !c08IsDrop(class) {
 		s.res.DropOnly = false
 	}
+	if !(c08IsDrop(class) || (class == "warn" && !est)) {
+		s.res.Inert = false
+	}
 	k := fmt.Sprintf("%v|%s|%s|%d|%v|%v", est, class, eff.key(), min(info.nrec, 2), fresh, neg)
 	if i, ok := s.obsIdx[k]; ok {
 		s.res.Obs[i].N++
 	} else {
 		s.obsIdx[k] = len(s.res.Obs)
 		o := c08Obs{Est: est, V13: ctxV13, Class: class, Gen: gen, Effect: eff, N: 1, NRec: info.nrec, Fresh: fresh, Neg: neg}
-		if !eff.none() || len(s.res.Obs) < 2 || (c08IsDrop(class) && len(data) <= 64) {
+		if !eff.none() || len(s.res.Obs) < 2 || ((c08IsDrop(class) || class == "warn") && len(data) <= 64) {
 			o.Hex = vHex(data)
 		}
 		s.res.Obs = append(s.res.Obs, o)
@@ -1187,6 +1198,15 @@ func (s *c08Sess) batch(c c08Case, rng *vRand, target string, pending []byte) {
 				d = append(d, rng.bytes(48)...)
 			}
 			s.inject(target, d, c08Classify(d, ctx), "forged-seq")
+		case "warn":
+			// an unprotected warning alert (level 1, description other than close_notify), fresh record number
+			desc := []byte{0x5a, 0x64, 0x29, 0x0a, 0x6e, 0xff}[(c.Item+i)%6]
+			d := []byte{21, 0xfe, 0xfd, 0, 0, 0, 0, 0, 0, 0, 0, 0, 2, 1, desc}
+			// a record number just ahead of the genuine sender's (inside the anti-replay window, so that committing
+			// it - which the code does for every unprotected record that decodes - does not push the genuine
+			// epoch-0 records out of the window: that would be the known power of an unauthenticated sender, X2)
+			binary.BigEndian.PutUint32(d[7:], uint32(28+4*i+rng.intn(4))) //nolint:gosec
+			s.inject(target, d, c08Classify(d, ctx), "warn")
 		case "flood-queue":
 			// forged records claiming the next epoch: each may take one of the 100 queue slots
 			var d []byte
@@ -1305,7 +1325,7 @@ func (s *c08Sess) batch(c c08Case, rng *vRand, target string, pending []byte) {
 func c08Run(t *testing.T, out *vOut, c c08Case, trace bool) c08Res {
 	t.Helper()
 	v := c08VariantByName(c.Variant)
-	res := c08Res{Kind: "case", ID: c.ID, Variant: c.Variant, Stage: c.Stage, Gen: c.Gen, DropOnly: true}
+	res := c08Res{Kind: "case", ID: c.ID, Variant: c.Variant, Stage: c.Stage, Gen: c.Gen, DropOnly: true, Inert: true}
 	s := &c08Sess{
 		t: t, v: v, out: out, trace: trace, id: c.ID, res: &res,
 		evs: map[string]*[]c08ReadEv{}, seen: map[string]int{}, wrote: map[string]bool{},
@@ -1402,6 +1422,27 @@ func c08Run(t *testing.T, out *vOut, c c08Case, trace bool) c08Res {
 	if res.Target != "" {
 		res.FBCount, res.FBSize = c08FB(lab.peer(res.Target).Conn)
 	}
+	first := func(p *vPeer) string {
+		sink := s.evs[p.Name]
+		if sink == nil {
+			return ""
+		}
+		p.rmu.Lock()
+		defer p.rmu.Unlock()
+		if len(*sink) == 0 {
+			return ""
+		}
+		ev := (*sink)[0]
+		switch {
+		case ev.err != "":
+			return "err:" + ev.err
+		case s.wrote[string(ev.payload)] || c08Wrote[string(ev.payload)]:
+			return "payload"
+		default:
+			return "unknown"
+		}
+	}
+	res.FirstC, res.FirstS = first(lab.Client), first(lab.Server)
 	lab.close()
 
 	return res
@@ -1454,6 +1495,12 @@ func c08Cases(seed uint64, thorough bool) []c08Case {
 			if r == 0 {
 				add(v.Name, -1, "forged", 6)
 				add(v.Name, -1, "forged", 6)
+				for st := -1; st <= maxStage; st++ {
+					for n := 1; n <= 3; n++ {
+						add(v.Name, st, "warn", n)
+						cases[len(cases)-1].Item = st + n + 7
+					}
+				}
 			}
 			add(v.Name, -1, "raw", 12)
 			add(v.Name, -1, "mut", 14)
